@@ -625,7 +625,8 @@ Definition encodeTMS (t : tms) : json :=
 Inductive verdict :=
 | Accept
 | Reject (check : nat)   (* which check failed: index into gen_quadtree_checks; 10 = strconv.Atoi error;
-                            11 = MatrixBoundingBox error (no matrix 0 / axis order unknown) *)
+                            11 = MatrixBoundingBox error (no matrix 0 / axis order unknown);
+                            12 = no tile matrices requested; 13 = a requested id is not in the set *)
 | VPanic.
 
 (** slices.Sort(maps.Keys(tms.TileMatrices)) and the lookup of each key *)
@@ -877,13 +878,23 @@ Definition deviationVerdict (t : tms) (deepest : Z) : verdict :=
 Definition max_list (l : list Z) : option Z :=
   match l with [] => None | x :: r => Some (fold_left Z.max r x) end.
 
-(** main.validateTileMatrixSet, in the order of gen_validate_calls: IsQuadTree, slices.Max, DeviationStats *)
+(** main.validateTileMatrixSet, in the order of gen_validate_shape: IsQuadTree; the requested ids must be non-empty
+    and must all be tile matrices of the set (errors 12, 13); slices.Max; DeviationStats *)
+Definition ids_exist (t : tms) (ids : list Z) : bool :=
+  forallb (fun i => match find_tm i (t_matrices t) with Some _ => true | None => false end) ids.
+
 Definition validate (t : tms) (ids : list Z) : verdict :=
   match isQuadTree t with
   | Accept =>
-      match max_list ids with
-      | None => VPanic                                   (* slices.Max: empty list *)
-      | Some d => deviationVerdict t d
+      match ids with
+      | [] => Reject 12                                  (* "no tile matrices given" *)
+      | _ =>
+          if ids_exist t ids then
+            match max_list ids with
+            | None => VPanic                             (* slices.Max: empty list -- unreachable here *)
+            | Some d => deviationVerdict t d
+            end
+          else Reject 13                                 (* "tile matrix %d does not exist in tile matrix set" *)
       end
   | v => v
   end.
